@@ -18,7 +18,7 @@ def _key(frame):
     return frame[4:] if len(frame) >= 4 else frame
 
 
-def integrity_violations(k, own_ip=None):
+def integrity_violations(k, own_ip=None, server_tun_ip=None):
     """Offline monitor over the event log: returns (violations, stats).  own_ip: process name -> its tunnel address."""
     import socket
     own_ip = own_ip or {}
@@ -36,6 +36,10 @@ def integrity_violations(k, own_ip=None):
             w = ev[3]["data"]
             src = reads.get(_key(w))
             if not src:
+                viol.append((ev[0], ev[2], w))
+            elif ev[2] != "srv" and server_tun_ip is not None and len(w) >= 24 and w[20:24] == socket.inet_aton(server_tun_ip):
+                # a packet addressed to the server's own tunnel address was read from a client's tun: "its peer" is the server,
+                # and no client's tun is where it belongs (whatever addresses the server handed out)
                 viol.append((ev[0], ev[2], w))
             else:
                 if not (src - {ev[2]}):
@@ -118,7 +122,7 @@ def scn(params):
             out["inconclusive"] = t.why.split(":")[0]
             out["stats"]["inconclusive_" + t.why.split(":")[0]] = 1
             return out
-        viol, st = integrity_violations(k, {c.name: ip for c, ip in zip(t.clients, t.tun_ips)})
+        viol, st = integrity_violations(k, {c.name: ip for c, ip in zip(t.clients, t.tun_ips)}, server_tun_ip=t.server_tun_ip)
         out["stats"].update(st)
         out["stats"]["tun_writes_refused_by_injection"] = sum(1 for ev in k.log if ev[1] == "tun_write_error")
         for (ts, who, w) in viol[:3]:
@@ -182,6 +186,11 @@ def run(ctx):
         cfg = tunnelscn.gen_config(rng, i + ctx.seed, faults=True, nclients_max=3)
         if i % 4 == 1:
             cfg["tun_write_faults"] = ctx.seed * 1000003 + i
+        if i % 5 == 2:
+            # the operator gave iodined an address in the middle of the block it hands out to clients
+            cfg["nclients"] = 3
+            cfg["tun"] = rng.choice(["10.9.0.2/27", "10.9.0.3/27", "10.9.0.3/24", "10.9.0.2/28", "172.20.0.3/16", "10.9.0.4/27"])
+            cfg["raw"] = False
         plist.append({"idx": i, "seed": ctx.seed * 100000 + i, "cfg": cfg})
     if ctx.replay:
         plist = [ctx.replay["witness"]["params"]]
